@@ -377,6 +377,47 @@ mutual
         | .raised e => .err e s3
 end
 
+/-! ### custom execution policies (`config.set_execution_policy`): the router is driven through its public pieces
+`router.request_context(environ)` + `router.invoke_request(request)` -/
+
+def leftOf (s : St) : Nat × Nat := (s.respQ.length, s.finQ.length)
+
+/-- the example policy of the `IExecutionPolicy` docstring:
+`with router.request_context(environ) as request: try: return router.invoke_request(request)
+ except Exception: return request.invoke_exception_view(reraise=True)` — an exception that escapes the pipeline
+(finished callbacks have run by then) is rendered once more, still inside the request context; `reraise=True` turns
+"no exception view" and "the exception view failed" into the ORIGINAL exception.  Result: the request's tree, the
+tree of what the policy's own exception-view call logged (if it made one), outcome, stack afterwards. -/
+def runSimple (xv : Bool) : Req → List Path → Tr × Option Tr × Outcome × List Path
+  | .mk cfg subs, stack0 =>
+    let self : Path := []
+    let r := invokeRequest xv cfg self true (runSubs xv subs self 0) { stack := self :: stack0 }
+    match r with
+    | .ok _ s =>
+      (.node s.log .resp s.stack.tail.length s.kids (leftOf s), none, .resp, s.stack.tail)
+    | .err e s =>
+      let p := invokeExcView xv cfg self e { stack := s.stack }
+      let out : Outcome := match p with
+        | .ok true _ => .resp
+        | _ => .raised e
+      (.node s.log (.raised e) p.st.stack.tail.length s.kids (leftOf s),
+       some (.node p.st.log out p.st.stack.tail.length [] (leftOf p.st)), out, p.st.stack.tail)
+
+/-- a retrying policy (pyramid_retry style): every attempt is a FRESH request over the same environ, run as
+`with router.request_context(environ) as request: return router.invoke_request(request)`; a plain exception is
+retried while attempts are left, anything else ends the call.  Each attempt is `runReq` (so every theorem about a
+request holds for every attempt). -/
+def runRetry (xv : Bool) : List Req → Nat → List Path → List Tr × Outcome × List Path
+  | [], _, stack0 => ([], .raised .plain, stack0)
+  | r :: rest, i, stack0 =>
+    match runReq xv true r [i] stack0 with
+    | (tr, out, stack1) =>
+      match out, rest with
+      | .raised .plain, _ :: _ =>
+        match runRetry xv rest (i + 1) stack1 with
+        | (trs, out', stack2) => (tr :: trs, out', stack2)
+      | _, _ => ([tr], out, stack1)
+
 /-- the WSGI call -/
 def runTop (xv : Bool) (r : Req) (stack0 : List Path) : Tr × Outcome × List Path :=
   runReq xv true r [] stack0
